@@ -240,23 +240,29 @@ Qed.
 (* The main arithmetic theorem: for dimensions that admit an ordering satisfying the standard's stride
    precondition, the strided offset is in [0, span) and injective on the index space. *)
 Definition orderable (ds : list dim) : Prop := exists l, Permutation l ds /\ asc l.
+(* slightly weaker and what the proofs use: some ordering of the dimensions is a descending chain *)
+Definition chainable (ds : list dim) : Prop := exists l, Permutation l ds /\ chain l.
 
-Theorem orderable_range_inj ds i1 i2 :
-  orderable ds -> Forall (fun d => 0 < snd d) ds -> inb i1 ds -> inb i2 ds ->
+Lemma allpos_perm l ds : Permutation l ds -> allpos ds -> allpos l.
+Proof. unfold allpos. intros Hp H. rewrite Forall_forall in *. intros d Hd. apply H. eapply Permutation_in; eauto. Qed.
+
+Lemma orderable_chainable ds : orderable ds -> allpos ds -> chainable ds.
+Proof.
+  intros (l & Hperm & Hasc) Hpos. pose proof (allpos_perm l ds Hperm Hpos) as Hposl.
+  exists (rev l). split; [|apply asc_chain_rev; auto].
+  eapply perm_trans; [apply Permutation_sym, Permutation_rev | exact Hperm].
+Qed.
+
+Theorem chainable_range_inj ds i1 i2 :
+  chainable ds -> inb i1 ds -> inb i2 ds ->
   0 <= dot i1 ds < span1 ds /\ (dot i1 ds = dot i2 ds -> i1 = i2).
 Proof.
-  intros (l & Hperm & Hasc) Hs H1 H2.
+  intros (l & Hperm' & Hchain) H1 H2.
   pose proof (inb_length _ _ H1) as L1. pose proof (inb_length _ _ H2) as L2.
-  assert (Hpos : allpos ds).
-  { pose proof (inb_allpos_ext _ _ H1) as He. unfold allpos. rewrite Forall_forall in *. intros d Hd. split; auto. }
-  assert (Hposl : allpos l).
-  { unfold allpos in *. rewrite Forall_forall in *. intros d Hd. apply Hpos. eapply Permutation_in; eauto. }
-  assert (Hchain : chain (rev l)) by (apply asc_chain_rev; auto).
-  assert (Hperm' : Permutation (rev l) ds) by (eapply perm_trans; [apply Permutation_sym, Permutation_rev | exact Hperm]).
   assert (Lq : length (combine i1 i2) = length ds) by (rewrite combine_length; lia).
-  destruct (perm_combine_lift (rev l) ds Hperm' (combine i1 i2) Lq) as (xs' & Hl' & Hpq).
-  set (q' := combine xs' (rev l)) in *. set (q := combine (combine i1 i2) ds) in *.
-  assert (Hms : map snd q' = rev l) by (apply map_snd_combine; exact Hl').
+  destruct (perm_combine_lift l ds Hperm' (combine i1 i2) Lq) as (xs' & Hl' & Hpq).
+  set (q' := combine xs' l) in *. set (q := combine (combine i1 i2) ds) in *.
+  assert (Hms : map snd q' = l) by (apply map_snd_combine; exact Hl').
   assert (HinQ : inbQ q') .
   { unfold inbQ. eapply Permutation_Forall; [apply Permutation_sym; exact Hpq|]. apply inbQ_combine; auto. }
   destruct (chainQ q') as (HL & HR & Hsame); [rewrite Hms; exact Hchain | exact HinQ |].
@@ -270,18 +276,24 @@ Proof.
   rewrite (dotL_perm _ _ Hpq), (dotR_perm _ _ Hpq), EL, ER. exact Heq.
 Qed.
 
-Lemma orderable_prod_le_span ds : orderable ds -> allpos ds -> prodl (map fst ds) <= span1 ds.
+Theorem orderable_range_inj ds i1 i2 :
+  orderable ds -> Forall (fun d => 0 < snd d) ds -> inb i1 ds -> inb i2 ds ->
+  0 <= dot i1 ds < span1 ds /\ (dot i1 ds = dot i2 ds -> i1 = i2).
 Proof.
-  intros (l & Hperm & Hasc) Hpos.
-  assert (Hposl : allpos l).
-  { unfold allpos in *. rewrite Forall_forall in *. intros d Hd. apply Hpos. eapply Permutation_in; eauto. }
-  assert (Hposr : allpos (rev l)).
-  { unfold allpos in *. rewrite Forall_forall in *. intros d Hd. apply Hposl. apply in_rev. exact Hd. }
-  pose proof (chain_prod_le_span (rev l) (asc_chain_rev l Hposl Hasc) Hposr) as H.
-  rewrite span1_rev in H. rewrite (span1_perm _ _ Hperm) in H.
-  rewrite map_rev, prodl_rev in H.
+  intros Ho Hs H1 H2. apply chainable_range_inj; auto. apply orderable_chainable; auto.
+  pose proof (inb_allpos_ext _ _ H1) as He. unfold allpos. rewrite Forall_forall in *. intros d Hd. split; auto.
+Qed.
+
+Lemma chainable_prod_le_span ds : chainable ds -> allpos ds -> prodl (map fst ds) <= span1 ds.
+Proof.
+  intros (l & Hperm & Hc) Hpos. pose proof (allpos_perm l ds Hperm Hpos) as Hposl.
+  pose proof (chain_prod_le_span l Hc Hposl) as H.
+  rewrite (span1_perm _ _ Hperm) in H.
   rewrite <- (prodl_perm (map fst l) (map fst ds)); [exact H|apply Permutation_map; exact Hperm].
 Qed.
+
+Lemma orderable_prod_le_span ds : orderable ds -> allpos ds -> prodl (map fst ds) <= span1 ds.
+Proof. intros Ho Hp. apply chainable_prod_le_span; auto. apply orderable_chainable; auto. Qed.
 
 (* ------------------------------------------------------------------------------------------------ *)
 (* enumeration of an index space (row-major order) and counting                                       *)
